@@ -137,16 +137,17 @@ def held (a : Alloc) : Rat := (a.map (fun hp => pileTotal hp.2)).sum
 
 /-! ## transfer.py: ranked_next -/
 
-/-- loop of `ranked_next` (L50-66); `take` is `take_next` -/
+/-- loop of `ranked_next` (L50-67); `take` is `take_next` -/
 def rankedNextGo (frm : Option Cand) (allowed : List Cand) : Bool → Ballot → List Cand
   | _, [] => []
   | take, .shared cs :: rest =>
-    if take then
+    -- `if not take_next and cand in rank_alt: take_next = True` (L53-55): the candidates sharing the rank
+    -- with `cand` come before lower ranks
+    if take || (match frm with
+        | some f => decide (f ∈ cs)
+        | none => false) then
       let alt := cs.filter (fun c => decide (c ∈ allowed))
       if alt ≠ [] then alt else rankedNextGo frm allowed true rest
-    else if (match frm with
-        | some f => decide (f ∈ cs)
-        | none => false) then rankedNextGo frm allowed true rest
     else rankedNextGo frm allowed false rest
   | take, .one c :: rest =>
     if take then
